@@ -13,7 +13,20 @@ SHARDS = {'quick': 4, 'thorough': 16}
 N = {'quick': 30, 'thorough': 800}
 
 def check_case(run, case):
-    name, path, res = trained.train_case(case, 'c18')
+    if case.get('first'):
+        # history: the rule directory already holds a ruleset trained with OTHER options (n-gram size, alphabet, list); the ruleset is then trained again
+        # in place with this case's list and options - everything judged below must describe the second training only
+        from .. import trainer, trainlists
+        name, path, res0 = trained.train_case(case['first'], 'c18')
+        if not res0.ok:
+            repo.drop_rules(name)
+            run.ev('trainings_not_completed'); run.inconc('training did not complete'); return
+        render = trainlists.render_prefix if case.get('prefixcount') else trainlists.render_plain
+        res = trainer.train(render([(p, k) for p, k in case['items']], case['encoding']), path, encoding=case['encoding'], coverage=case['coverage'], ngram=case['ngram'],
+                            alphabet_size=case['alphabet'], max_len=case['max_len'], prefixcount=bool(case.get('prefixcount')))
+        run.ev('retrained_in_place_with_other_options')
+    else:
+        name, path, res = trained.train_case(case, 'c18')
     try:
         if not res.ok or res.omen_trainer is None:
             run.ev('trainings_not_completed'); run.inconc('training did not complete'); return
@@ -61,12 +74,25 @@ def check_case(run, case):
         repo.drop_rules(name)
 
 def run(run, rng):
-    run.required_events = ['levels_compared']
+    run.required_events = ['levels_compared', 'retrained_in_place_with_other_options']
     run.min_distinct = 10
     run.assumptions = ['max_len 5-8 handed to run_trainer (harness bound) so that levels can be enumerated; the trainer\'s own 10^10 cut-off is out of reach of enumeration',
                        'levels whose model exceeds 200000 strings are not decided (inconclusive)']
     for i in range(N[run.tier]):
-        run.guard(c11.gen_case(rng), check_case, seconds=240)
+        case = c11.gen_case(rng)
+        if i % 5 == 4:
+            first = c11.gen_case(rng)
+            for _ in range(30):
+                if first['encoding'] == case['encoding']:
+                    break
+                first = c11.gen_case(rng)
+            if first['encoding'] != case['encoding']:
+                run.guard(case, check_case, seconds=240)
+                continue
+            first['ngram'] = rng.choice([n for n in (2, 3, 4) if n != case['ngram']])
+            first['max_len'] = max(first['max_len'], first['ngram'], 5)
+            case['first'] = first
+        run.guard(case, check_case, seconds=240)
 
 def replay(run, case):
     check_case(run, case['case'])
